@@ -101,7 +101,7 @@ Section FS.
   (* unquote on runes: Some name if the component is a literal *)
   Fixpoint unquote_lit (rs : list (rune * bytes)) (esc : bool) : option bytes :=
     match rs with
-    | [] => Some []
+    | [] => if esc then None else Some []          (* a trailing backslash escapes nothing: not a literal *)
     | (r, b) :: rs' =>
       if (r =? RuneError) then None
       else if (r =? 92) && negb esc then unquote_lit rs' true
